@@ -21,8 +21,10 @@
 (***************************************************************************)
 EXTENDS Sequences, Naturals, FiniteSets, TLC, Json
 
-CONSTANTS AllModes      \* TRUE: cross rule sets with all five modes (thorough)
-                        \* FALSE: one mode per rule set, rotating (quick)
+CONSTANTS AllModes      \* TRUE: the flag stratum F is crossed with all five modes (thorough)
+                        \* FALSE: one mode per configuration of F, rotating (quick)
+                        \* (the rule stratum R always rotates the mode: the mode only
+                        \* selects the synthetic response, independently of precedence)
 
 SvcDom == {<<"4chan", "org">>}
 INSTANCE DnsPipelineCore WITH SvcDomains <- SvcDom
@@ -140,7 +142,6 @@ RECURSIVE SumIds(_)
 SumIds(S) == IF S = {} THEN 0
              ELSE LET r == CHOOSE x \in S : TRUE
                   IN r.id + 7 * PlaceNo(r.place) + SumIds(S \ {r})
-RotMode(S) == ModeSeq[(SumIds(S) % 5) + 1]
 
 NoClient  == [known |-> FALSE, useOwn |-> FALSE, filt |-> TRUE, svc |-> "inherit"]
 BaseCfg(rs, mode) ==
@@ -155,15 +156,21 @@ BaseCfg(rs, mode) ==
 KnownClient == [known |-> TRUE, useOwn |-> FALSE, filt |-> TRUE, svc |-> "inherit"]
 GenModes == IF AllModes THEN {ModeSeq[i] : i \in DOMAIN ModeSeq} ELSE {"rot"}
 MkR(rs, m) == [BaseCfg(rs, m) EXCEPT !.client = IF SumIds(rs) % 2 = 0 THEN KnownClient ELSE NoClient]
-FixMode(c) == IF c.mode = "rot" THEN [c EXCEPT !.mode = RotMode(c.rules)] ELSE c
+FlagSum(c) ==
+    (CASE c.prot = "on" -> 0 [] c.prot = "off" -> 1 [] c.prot = "paused" -> 2 [] OTHER -> 3)
+    + (IF c.filt THEN 0 ELSE 1) + (CASE c.svc = "none" -> 0 [] c.svc = "active" -> 1 [] OTHER -> 2)
+    + (IF c.client.known THEN 1 ELSE 0) + (IF c.client.useOwn THEN 2 ELSE 0) + (IF c.client.filt THEN 0 ELSE 1)
+    + (CASE c.client.svc = "inherit" -> 0 [] c.client.svc = "none" -> 1 [] c.client.svc = "active" -> 2 [] OTHER -> 3)
+    + (IF c.aaaaOff THEN 1 ELSE 0)
+FixMode(c) == IF c.mode = "rot" THEN [c EXCEPT !.mode = ModeSeq[((SumIds(c.rules) + FlagSum(c)) % 5) + 1]] ELSE c
 RuleSetsOf(U, k) ==      \* the sets {r1} and {r1, r2}, r1 = the rule of U with key k, r2 not before it
     LET r1 == CHOOSE r \in U : RKey(r) = k
     IN {x \in {{r1, r2} : r2 \in {y \in U : RKey(y) >= k}} : ~Ambiguous(x)}
 Buckets01 == {<<"R", RKey(r)>> : r \in AllPlaced} \cup {<<"L", 0>>}
                 \cup {<<"F", i>> : i \in 1..10}
 StratumRB(b) ==
-    IF b[1] = "R" THEN {MkR(rs, m) : rs \in RuleSetsOf(AllPlaced, b[2]), m \in GenModes}
-    ELSE {MkR(rs, m) : rs \in {{}} \cup Ladders, m \in GenModes}
+    IF b[1] = "R" THEN {MkR(rs, "rot") : rs \in RuleSetsOf(AllPlaced, b[2])}
+    ELSE {MkR(rs, "rot") : rs \in {{}} \cup Ladders}
 
 \* Stratum F: a few representative rule sets crossed with every combination
 \* of mode, protection state, global / per-client filtering and blocked
@@ -185,7 +192,7 @@ ClientRecs ==
         u \in BOOLEAN, f \in BOOLEAN, s \in {"inherit", "none", "active", "paused"}}
 StratumFB(fi) ==
     {[rules |-> rs, mode |-> m, prot |-> pr, filt |-> f, svc |-> s, client |-> c, aaaaOff |-> FALSE] :
-        rs \in {FlagRuleSets[fi]}, m \in {ModeSeq[i] : i \in DOMAIN ModeSeq},
+        rs \in {FlagRuleSets[fi]}, m \in GenModes,
         pr \in {"on", "off", "paused", "expired"}, f \in BOOLEAN,
         s \in {"none", "active", "paused"},
         c \in {x \in ClientRecs : x.useOwn \/ x.filt}}   \* filt is irrelevant without useOwn
@@ -262,9 +269,9 @@ MkR02(rs, m) ==
     MkCfg02(rs, m, IF SumIds(rs) % 3 = 0 THEN <<"on", TRUE, NoClient, TRUE>> ELSE <<"on", TRUE, NoClient, FALSE>>)
 Buckets02 == {<<"R", RKey(r)>> : r \in Placed02} \cup {<<"L", 0>>} \cup {<<"F", i>> : i \in 1..4}
 Stratum02B(b) ==
-    CASE b[1] = "R" -> {MkR02(rs, m) : rs \in RuleSetsOf(Placed02, b[2]), m \in GenModes}
-      [] b[1] = "L" -> {MkR02({}, m) : m \in GenModes}
-      [] OTHER      -> {MkCfg02(FlagRuleSets02[b[2]], m, fl) : m \in {ModeSeq[i] : i \in DOMAIN ModeSeq}, fl \in Flag02}
+    CASE b[1] = "R" -> {MkR02(rs, "rot") : rs \in RuleSetsOf(Placed02, b[2])}
+      [] b[1] = "L" -> {MkR02({}, "rot")}
+      [] OTHER      -> {MkCfg02(FlagRuleSets02[b[2]], m, fl) : m \in GenModes, fl \in Flag02}
 
 \* The client is c1 throughout; AAAA is asked only while AAAA resolving is on
 \* (with it off the server answers AAAA queries itself, which is outside C02).
@@ -283,8 +290,9 @@ Init == cfg = NoCfg /\ req = NoReq /\ p = Idle /\ tab = <<>> /\ bk = <<"", 0>>
 \* --- SpecMC: the pipeline step by step over a reduced universe
 MCConfigs ==
     {FixMode(MkR(rs, "rot")) : rs \in {{}} \cup {{r} : r \in AllPlaced} \cup Ladders}
-      \cup {c \in UNION {StratumFB(i) : i \in {2, 4, 7, 9}} :
-               c.mode \in {"default", "nxdomain"} /\ c.prot \in {"on", "off"}}
+      \cup {FixMode(c) : c \in {x \in UNION {StratumFB(i) : i \in {4, 7}} :
+               /\ x.mode \in {"rot", "default"} /\ x.prot \in {"on", "off", "expired"}
+               /\ (x.client.known => x.client.svc \in {"inherit", "active"})}}
 MCConfigs02 == {FixMode(MkR02(rs, "rot")) : rs \in {{}} \cup {{r} : r \in Placed02}}
 MCAnswers02 == {AnsOf(ix) : ix \in {x \in AnsIx : Len(x) <= 2}}
 
@@ -294,15 +302,15 @@ Pick01 == /\ p.stage = "idle"
 Pick02 == /\ p.stage = "idle"
           /\ \E c \in MCConfigs02, ua \in MCAnswers02, q \in {"A", "HTTPS"} :
                 cfg' = c /\ req' = Req02(c, q) /\ p' = P0 /\ tab' = <<ua>> /\ UNCHANGED bk
-Stage(s) == /\ p.stage = s
-            /\ \E q \in Step(cfg, req, p, {tab[1]}) : p' = q
-            /\ UNCHANGED <<cfg, req, tab, bk>>
-Before       == Stage("before")
-Initial      == Stage("initial")
-FilterBefore == Stage("filterbefore")
-Upstream     == Stage("upstream")
-FilterAfter  == Stage("filterafter")
-Log          == Stage("log")
+\* One action per stage of handleDNSRequest; the bodies are Core!Step.
+Advance == /\ \E q \in Step(cfg, req, p, {tab[1]}) : p' = q
+           /\ UNCHANGED <<cfg, req, tab, bk>>
+Before       == p.stage = "before" /\ Advance
+Initial      == p.stage = "initial" /\ Advance
+FilterBefore == p.stage = "filterbefore" /\ Advance
+Upstream     == p.stage = "upstream" /\ Advance
+FilterAfter  == p.stage = "filterafter" /\ Advance
+Log          == p.stage = "log" /\ Advance
 NextMC == Pick01 \/ Pick02 \/ Before \/ Initial \/ FilterBefore \/ Upstream \/ FilterAfter \/ Log
 SpecMC == Init /\ [][NextMC]_vars
 
